@@ -61,18 +61,39 @@ type Server struct {
 	U    Universe
 	Log  []Query
 	Now  func() int64
-	HS   *httptest.Server
+	HS   []*httptest.Server
+	next int
 	Rand *rand.Rand
 }
 
+// NewServer starts the DoH endpoint on several loopback ports. The package under test opens a new
+// TCP connection for every query (a fresh retryablehttp client per call), so a long campaign would
+// exhaust the (source port, destination port) tuples of a single listener while they sit in
+// TIME_WAIT; keep-alives are disabled and the listeners are used in rotation.
 func NewServer(seed uint64) *Server {
 	s := &Server{U: Universe{}, Rand: rand.New(rand.NewPCG(seed, 7))}
-	s.HS = httptest.NewServer(http.HandlerFunc(s.handle))
+	for i := 0; i < 24; i++ {
+		hs := httptest.NewUnstartedServer(http.HandlerFunc(s.handle))
+		hs.Config.SetKeepAlivesEnabled(false)
+		hs.Start()
+		s.HS = append(s.HS, hs)
+	}
 	return s
 }
 
-func (s *Server) URL() string { return s.HS.URL + "/dns-query" }
-func (s *Server) Close()      { s.HS.Close() }
+// URL returns the endpoint of the next listener (round robin).
+func (s *Server) URL() string {
+	s.mu.Lock()
+	defer s.mu.Unlock()
+	s.next++
+	return s.HS[s.next%len(s.HS)].URL + "/dns-query"
+}
+
+func (s *Server) Close() {
+	for _, h := range s.HS {
+		h.Close()
+	}
+}
 
 func (s *Server) Set(u Universe) {
 	s.mu.Lock()
